@@ -36,7 +36,10 @@ def one(kind, sid, vwt, slot, prop=None, expect=None):
             prop = json.load(open(os.path.join(d, "meta.json"))).get("property", prop)
         except Exception:  # noqa: BLE001
             pass
-    wt = os.environ.get("SELFTEST_REPO_PREFIX", "/tmp/selftest-repo-") + str(slot)
+    # unique per run: two selftest runs at the same time must not share (and remove!) each other's scratch trees — a check
+    # whose tree vanished imported /repo instead (the editable install is last on sys.path) and ended with the
+    # "imported from /repo, expected …" assertion of props.common
+    wt = os.environ.get("SELFTEST_REPO_PREFIX", f"/tmp/selftest-repo-{os.getpid()}-") + str(slot)
     sh(f"git -C /repo worktree remove --force {wt}")
     r = sh(f"git -C /repo worktree add -q --detach {wt} HEAD && git -C {wt} apply {patch}")
     if r.returncode != 0:
